@@ -122,6 +122,13 @@ type rawLine struct {
 //   (u128).lessEq      -> (pkg.u128).lessEq
 //   compile$1          -> pkg.compile$1
 func expandFuncName(short, pkg string) string {
+	if strings.HasPrefix(short, "param ") {
+		rest := strings.TrimPrefix(short, "param ")
+		if pkg == "" || strings.Contains(rest, "/") {
+			return short
+		}
+		return "param " + pkg + "." + rest
+	}
 	if strings.HasPrefix(short, "field ") {
 		rest := strings.TrimPrefix(short, "field ")
 		if pkg == "" || strings.Contains(rest, "/") {
@@ -164,12 +171,12 @@ func parseParams(s string) ([]Param, error) {
 	if s == "" {
 		return nil, nil
 	}
-	for _, part := range strings.Split(s, ",") {
+	for _, part := range splitTop(s) {
 		f := strings.Fields(strings.TrimSpace(part))
-		if len(f) != 2 {
+		if len(f) < 2 {
 			return nil, fmt.Errorf("bad parameter %q (want 'name type')", part)
 		}
-		ps = append(ps, Param{f[0], f[1]})
+		ps = append(ps, Param{f[0], strings.Join(f[1:], " ")})
 	}
 	return ps, nil
 }
@@ -414,7 +421,12 @@ func (cs *ContractSet) parseBlock(b []rawLine, file, pkg string) error {
 		for _, l := range b[1:] {
 			text += " " + l.text
 		}
-		m := specRe.FindStringSubmatch(text)
+		var m []string
+		if i := strings.Index(text, ":="); i >= 0 {
+			if sg := splitSig(strings.TrimSpace(text[:i])); sg != nil {
+				m = []string{text, sg[1], sg[2], sg[3], strings.TrimSpace(text[i+2:])}
+			}
+		}
 		if m == nil {
 			return fmt.Errorf("%s:%d: bad spec definition %q", file, head.line, text)
 		}
@@ -433,7 +445,7 @@ func (cs *ContractSet) parseBlock(b []rawLine, file, pkg string) error {
 		sd := &SpecDef{Name: m[1], Pkg: pkg, Params: ps, RetType: rt, Body: e, Text: m[4], Rec: kw == "recspec", File: file, Line: head.line}
 		cs.Specs[sd.Name] = append(cs.Specs[sd.Name], sd)
 	case "uninterp":
-		m := uninterpRe.FindStringSubmatch(rest)
+		m := splitSig(rest)
 		if m == nil {
 			return fmt.Errorf("%s:%d: bad uninterp", file, head.line)
 		}
@@ -537,4 +549,25 @@ func splitTop(s string) []string {
 	}
 	out = append(out, s[last:])
 	return out
+}
+
+// splitSig splits "name(params) rettype" with balanced parentheses in params.
+func splitSig(s string) []string {
+	i := strings.Index(s, "(")
+	if i <= 0 {
+		return nil
+	}
+	d := 0
+	for j := i; j < len(s); j++ {
+		switch s[j] {
+		case '(':
+			d++
+		case ')':
+			d--
+			if d == 0 {
+				return []string{s, strings.TrimSpace(s[:i]), s[i+1 : j], strings.TrimSpace(s[j+1:])}
+			}
+		}
+	}
+	return nil
 }
